@@ -67,9 +67,30 @@ class Outcome:
         return "did not return within the loop-iteration budget (%d iterations)" % self.steps
 
 
+INT_STR_TRAP = 640   # digits; CPython's own limit is 4300 (PEP/CVE-2020-10735), 640 is the lowest it accepts
+
+
+class int_str_trap:
+    """While a library call runs, CPython's int<->str conversion limit is lowered from 4300 to 640 digits.  The library
+    works on decimal *strings* precisely to have no such limit; an implementation that silently goes through int() /
+    str() still works in ordinary tests and breaks for messages beyond ~14 000 bits.  With the lowered limit the same
+    ValueError appears beyond ~2 100 bits, which a workload can afford.  The harness's own oracles lift the limit
+    (see contracts._counting)."""
+
+    def __enter__(self):
+        import sys
+        self._old = sys.get_int_max_str_digits()
+        sys.set_int_max_str_digits(INT_STR_TRAP)
+
+    def __exit__(self, *a):
+        import sys
+        sys.set_int_max_str_digits(self._old)
+        return False
+
+
 def monitored(fn, budget, *a, **k):
-    """Call fn under the JUMP clock.  Library exceptions are returned, not raised."""
-    with clock.budget(budget) as b:
+    """Call fn under the JUMP clock and the int<->str trap.  Library exceptions are returned, not raised."""
+    with clock.budget(budget) as b, int_str_trap():
         try:
             v = fn(*a, **k)
             out = Outcome("ok", v)
